@@ -128,6 +128,8 @@ class Evaluator:
             return float(n['v'])
         if k == 'CXXBoolLiteralExpr':
             return bool(n['v'])
+        if k in ('CXXNullPtrLiteralExpr', 'GNUNullExpr'):
+            return 0
         if k in CAST_KINDS:
             v = self.ev(n['ch'][0])
             if v is None:
@@ -191,7 +193,12 @@ class Evaluator:
             if l is None or r is None:
                 return None
             if op in ('==', '!=', '<', '<=', '>', '>='):
-                return {'==': l == r, '!=': l != r, '<': l < r, '<=': l <= r, '>': l > r, '>=': l >= r}[op]
+                if op in ('==', '!='):
+                    return (l == r) if op == '==' else (l != r)
+                try:
+                    return {'<': l < r, '<=': l <= r, '>': l > r, '>=': l >= r}[op]
+                except TypeError:
+                    return None
             try:
                 if op == '+':
                     v = l + r
@@ -289,6 +296,25 @@ class Evaluator:
             if isinstance(a, tuple) and isinstance(b, tuple) and a[1] == b[1]:
                 return b[2] - a[2]
             return None
+        if k == 'CallExpr' and n.get('callee', {}).get('qname') in ('std::find', 'std::count') and len(fn.call_args(n)) == 3:
+            # over a modelled container: elements are the model entries  <container>[k]
+            args = fn.call_args(n)
+            b, e = self.ev(fn.strip(args[0], 'all')), self.ev(fn.strip(args[1], 'all'))
+            val = self.ev(fn.strip(args[2], 'all'))
+            if isinstance(b, tuple) and isinstance(e, tuple) and b[0] == 'it' and e[0] == 'it' and b[1] == e[1] and val is not None:
+                hits = []
+                for kk in range(b[2], e[2]):
+                    el = self.model.get('%s[%d]' % (b[1], kk))
+                    if el is None:
+                        self.unknown['%s[%d]' % (b[1], kk)] = 'o'
+                        return None
+                    self.used.add('%s[%d]' % (b[1], kk))
+                    if el == val:
+                        hits.append(kk)
+                if n['callee']['qname'] == 'std::count':
+                    return len(hits)
+                return ('it', b[1], hits[0]) if hits else e
+            return None
         if k == 'CallExpr' and n.get('callee', {}).get('qname') in ('std::find_if', 'std::find_if_not', 'std::any_of', 'std::all_of', 'std::none_of', 'std::count_if'):
             from paths import lambda_params
             lp = [v for v in lambda_params(fn).values() if v[2] == n['id']]
@@ -383,9 +409,26 @@ class Evaluator:
                 if pure:
                     st = {}
                     m2 = translate_model(fn, self, n, cf, self.model)
-                    _, end2, _ = walk(cf, m2, follow_loops=True, max_steps=2000, state=st, _depth=self.depth + 1)
+                    _, end2, und2 = walk(cf, m2, follow_loops=True, max_steps=2000, state=st, _depth=self.depth + 1)
                     if end2 == 'NEXIT' and st.get('ret') is not None:
                         return st['ret']
+                    if end2.startswith('undecided') and und2:
+                        # what the helper could not evaluate, in this function's terms (so that the caller may treat it as a free quantity)
+                        roots = []
+                        if fn.call_obj(n) is not None:
+                            roots.append(('this', re.sub(r'^\*\((.*)\)$', r'\1', self.R.render(fn.call_obj(n)))))
+                        for j_, a_ in enumerate(fn.call_args(n)):
+                            roots.append(('arg%d' % j_, re.sub(r'^\*\((.*)\)$', r'\1', self.R.render(a_))))
+                        tr = 0
+                        for _nid, unk in und2:
+                            for atom_, tc_ in unk.items():
+                                for t_, r_ in roots:
+                                    if atom_ == t_ or atom_.startswith(t_ + '.') or atom_.startswith(t_ + '['):
+                                        self.unknown[r_ + atom_[len(t_):]] = tc_
+                                        tr += 1
+                                        break
+                        if tr:
+                            return None
         if k in ('CXXMemberCallExpr', 'MemberExpr', 'CXXOperatorCallExpr', 'CallExpr', 'ArraySubscriptExpr'):
             self.unknown[self.R.render(i)] = n.get('tc')
         return None
